@@ -37,6 +37,15 @@ type redisWorld struct {
 	cmds    int64
 	refuse  string // != "": single commands are answered with this error reply
 	refused int64
+	// SCAN as a real server does it (miniredis returns every match in one page): with
+	// scanPage > 0 the pump takes the full answer of "SCAN 0" from the server and hands it to
+	// the client in pages of that many keys, scanEmpty empty pages before each of them (on a
+	// real server MATCH is applied after COUNT keys were walked: pages can be empty while
+	// the cursor is not 0)
+	scanPage  int
+	scanEmpty int
+	scans     map[int][][]string  // connection -> pages still to hand out (index = cursor)
+	capture   map[int]chan []byte // connection -> where the next complete server reply goes
 }
 
 func newRedisWorld(e *sim.Env, c *sim.Case) (*redisWorld, error) {
@@ -49,7 +58,7 @@ func newRedisWorld(e *sim.Env, c *sim.Case) (*redisWorld, error) {
 	m.Seed(1)
 	now := time.Now()
 	m.SetTime(now.Add(time.Duration(c.Knob("redis_clock_skew_ns", 0))))
-	return &redisWorld{e: e, m: m, clients: map[int]kvs.Storage{}, last: now, latency: time.Duration(c.Knob("net_latency_ns", 0)), skew: time.Duration(c.Knob("redis_clock_skew_ns", 0))}, nil
+	return &redisWorld{scanPage: int(c.Knob("scan_page", 0)), scanEmpty: int(c.Knob("scan_empty_pages", 0)), scans: map[int][][]string{}, capture: map[int]chan []byte{}, e: e, m: m, clients: map[int]kvs.Storage{}, last: now, latency: time.Duration(c.Knob("net_latency_ns", 0)), skew: time.Duration(c.Knob("redis_clock_skew_ns", 0))}, nil
 }
 
 func (rw *redisWorld) syncClock() {
@@ -170,6 +179,19 @@ func (rw *redisWorld) pumpC2S(id int, from, to net.Conn) {
 			}
 			acc = append([]byte(nil), rest...)
 			zsimrt.Yield("net:c2s:" + name)
+			if name == "SCAN" && single && rw.scanPage > 0 && rw.refuse == "" {
+				if rw.latency > 0 {
+					rw.e.FaultFired("network_latency")
+					zsimrt.Sleep("net:latency", rw.latency)
+				}
+				if reply, ok := rw.scan(id, cmd, to); ok {
+					rw.e.Logf("redis conn%d <- SCAN (paged)", id)
+					if _, err := from.Write(reply); err != nil {
+						return
+					}
+					continue
+				}
+			}
 			if rw.refuse != "" && single && !inTx && name != "MULTI" && name != "EXEC" && name != "WATCH" && name != "UNWATCH" && name != "DISCARD" {
 				// the server is up but refuses to work: an error reply instead of an answer.
 				// Only commands that travel alone are refused (their reply is read before anything
@@ -223,12 +245,23 @@ func (rw *redisWorld) pumpS2C(id int, from, to net.Conn) {
 			q <- append([]byte(nil), buf[:n]...)
 		}
 	}()
+	var held []byte
 	for {
 		chunk, ok := <-q
 		if !ok {
 			zsimrt.Yield("net:s2c:close")
 			to.Close()
 			return
+		}
+		if ch := rw.capture[id]; ch != nil {
+			// the pump itself asked (SCAN paging): the reply goes to it, not to the client
+			held = append(held, chunk...)
+			if n, ok := respLen(held, 0); ok {
+				delete(rw.capture, id)
+				ch <- held[:n]
+				held = nil
+			}
+			continue
 		}
 		zsimrt.Yield("net:s2c")
 		if _, err := to.Write(chunk); err != nil {
@@ -237,6 +270,133 @@ func (rw *redisWorld) pumpS2C(id int, from, to net.Conn) {
 			return
 		}
 	}
+}
+
+// respLen: the length of the complete RESP value that starts at b[i].
+func respLen(b []byte, i int) (int, bool) {
+	j := indexCRLF(b, i)
+	if j < 0 {
+		return 0, false
+	}
+	switch b[i] {
+	case '+', '-', ':':
+		return j + 2, true
+	case '$':
+		l, err := strconv.Atoi(string(b[i+1 : j]))
+		if err != nil {
+			return 0, false
+		}
+		if l < 0 {
+			return j + 2, true
+		}
+		if j+2+l+2 > len(b) {
+			return 0, false
+		}
+		return j + 2 + l + 2, true
+	case '*':
+		n, err := strconv.Atoi(string(b[i+1 : j]))
+		if err != nil {
+			return 0, false
+		}
+		pos := j + 2
+		for k := 0; k < n; k++ {
+			e, ok := respLen(b, pos)
+			if !ok {
+				return 0, false
+			}
+			pos = e
+		}
+		return pos, true
+	}
+	return 0, false
+}
+
+// scan answers one SCAN command of connection id in pages (see scanPage).
+func (rw *redisWorld) scan(id int, cmd []byte, server net.Conn) ([]byte, bool) {
+	args := respStrings(cmd)
+	if len(args) < 2 {
+		return nil, false
+	}
+	cur, err := strconv.Atoi(args[1])
+	if err != nil {
+		return nil, false
+	}
+	if cur == 0 {
+		ch := make(chan []byte, 1)
+		rw.capture[id] = ch
+		rw.syncClock()
+		rw.cmds++
+		if _, err := server.Write(cmd); err != nil {
+			delete(rw.capture, id)
+			return nil, false
+		}
+		full := <-ch
+		keys := respStrings(full)
+		if len(full) == 0 || full[0] != '*' || len(keys) < 1 {
+			return full, true // an error reply: pass it on
+		}
+		keys = keys[1:] // [0] is the server's cursor ("0")
+		var pages [][]string
+		for len(keys) > 0 || len(pages) == 0 {
+			for k := 0; k < rw.scanEmpty; k++ {
+				pages = append(pages, nil)
+			}
+			n := rw.scanPage
+			if n > len(keys) {
+				n = len(keys)
+			}
+			pages = append(pages, keys[:n])
+			keys = keys[n:]
+		}
+		rw.scans[id] = pages
+		rw.e.Probe("scan_answered_in_pages")
+	}
+	pages := rw.scans[id]
+	if cur < 0 || cur >= len(pages) {
+		return []byte("*2\r\n$1\r\n0\r\n*0\r\n"), true
+	}
+	next := cur + 1
+	if next >= len(pages) {
+		next = 0
+	}
+	// a page is computed when it is asked for: what has gone since the first page is not in it
+	rw.syncClock()
+	var page []string
+	for _, k := range pages[cur] {
+		if rw.m.Exists(k) {
+			page = append(page, k)
+		}
+	}
+	var sb strings.Builder
+	ns := strconv.Itoa(next)
+	fmt.Fprintf(&sb, "*2\r\n$%d\r\n%s\r\n*%d\r\n", len(ns), ns, len(page))
+	for _, k := range page {
+		fmt.Fprintf(&sb, "$%d\r\n%s\r\n", len(k), k)
+	}
+	return []byte(sb.String()), true
+}
+
+// respStrings: the bulk strings of a RESP value, flattened in order.
+func respStrings(b []byte) []string {
+	var out []string
+	for i := 0; i < len(b); {
+		j := indexCRLF(b, i)
+		if j < 0 {
+			break
+		}
+		if b[i] == '$' {
+			l, err := strconv.Atoi(string(b[i+1 : j]))
+			if err != nil || l < 0 || j+2+l > len(b) {
+				i = j + 2
+				continue
+			}
+			out = append(out, string(b[j+2:j+2+l]))
+			i = j + 2 + l + 2
+			continue
+		}
+		i = j + 2
+	}
+	return out
 }
 
 func redisKey(key string) string {
